@@ -11,7 +11,7 @@ QUICK_CASES = 700  # generator items in the quick tier (fixed amount of work; BU
 FLOOR = {"quick": 200, "thorough": 200}  # conclusive cases below which a run is inconclusive (the thorough tier is time-budgeted: same floor)
 TIMEOUT = 120
 HASHSEEDS = {"quick": [0, 1, 2, 3], "thorough": list(range(16))}
-REQUIRED_OBS = ["deactivations", "occurrence_phases", "runs_observed", "residue_snapshots", "startup_runs", "shutdown_runs", "closure_instances", "redefined_at_load", "deleted_while_starting", "start_suspension_injected", "session_contexts"]
+REQUIRED_OBS = ["deactivations", "occurrence_phases", "runs_observed", "residue_snapshots", "startup_runs", "shutdown_runs", "closure_instances", "redefined_at_load", "deleted_while_starting", "start_suspension_injected", "session_contexts", "closures_defined_in_dead_context"]
 RULE = (
     "random lifetime histories over two script files: module-level functions and factory-made closures (kept in a list / dict: append, pop, "
     "clear, overwrite, del) carrying any mix of @state_trigger (single name, or value + .old + attribute of one entity plus a second entity), "
@@ -172,6 +172,13 @@ def make(kinds, extras, gen, name):
     return inner
 
 @service
+def ctl_late(kinds=None, extras=None, gen=None, name=None):
+    # still running when its file is rewritten and reloaded: what it defines afterwards belongs to the dead context
+    task.wait_until(event_trigger='c9_release')
+    held_list.append(make(kinds, extras, gen, name))
+    vf.rec('late_defined', gen=gen)
+
+@service
 def ctl(op=None, key=None, kinds=None, extras=None, gen=None, name=None):
     if op == "append":
         held_list.append(make(kinds, extras, gen, name))
@@ -200,7 +207,7 @@ def gen_history(rng):
         k = rng.random()
         if k < 0.22:
             f = rng.choice(["a.py", "b.py"])
-            steps.append({"op": "rewrite", "file": f, "drop": rng.random() < 0.3, "add": rng.random() < 0.3})
+            steps.append({"op": "rewrite", "file": f, "drop": rng.random() < 0.3, "add": rng.random() < 0.3, "late": f == "a.py" and rng.random() < 0.35, "late_kind": rng.choice(["state", "state_multi", "event", "time", "service"])})
         elif k < 0.30:
             steps.append({"op": "delete_file", "file": "b.py"})
         elif k < 0.36:
@@ -373,6 +380,15 @@ def run_case(case):
             op = st["op"]
             label = f"step {si} {op}"
             cover["ops"].append(op if op != "ctl" else f"ctl:{st['sub']}")
+            late_inst = None
+            if op == "rewrite" and st.get("late") and m.present["a.py"]:
+                # a service run of the old a.py that is still waiting when the file is replaced
+                m.gen += 1
+                late_inst = {"gen": m.gen, "name": f"late{m.gen}", "trigs": [st["late_kind"]], "extras": [], "where": "dead-context"}
+                m.dead[late_inst["gen"]] = late_inst
+                w.hass.async_create_task(w.hass.services.async_call("pyscript", "ctl_late", {"kinds": late_inst["trigs"], "extras": [], "gen": late_inst["gen"], "name": late_inst["name"]}, blocking=True))
+                await w.settle()
+                obs["closures_defined_in_dead_context"] += 1
             if op == "rewrite":
                 f = st["file"]
                 old = m.files[f]
@@ -400,6 +416,11 @@ def run_case(case):
                     m.closures = {"list": [], "dict": {}}
                 w.write(f, m.render_file(f))
                 await w.reload()
+                if late_inst is not None:
+                    w.hass.bus.async_fire("c9_release", {})
+                    await w.settle()
+                    if not [r for r in w.rec if r["tag"] == "late_defined" and r["gen"] == late_inst["gen"]]:
+                        viol.append({"mech": "running_function_killed_by_reload", "msg": f"{label}: the service run that was waiting when its file was reloaded did not continue"})
             elif op == "delete_file":
                 f = st["file"]
                 if m.present[f]:
